@@ -141,6 +141,29 @@ func (m *Machine) binop(op token.Token, xt types.Type, x, y Value, yt types.Type
 			return c.Bin(OMul, xv, yv)
 		case token.QUO, token.REM:
 			m.require(c.Not(c.Eq(yv, c.BV(0, int(yv.W)))), "panic:divide", "integer divide by zero")
+			if yv.IsConst() && yv.C != 0 && yv.C&(yv.C-1) == 0 && !xv.IsConst() {
+				// power-of-two divisor: shift / mask when the dividend is unsigned or known non-negative
+				nonneg := !signed
+				if signed {
+					m.refreshFacts()
+					if rx, ok := m.rangeOf(m.rewrite(xv), 0); ok && rx.hi < uint64(1)<<(xv.W-1) {
+						nonneg = true
+					}
+				}
+				if nonneg {
+					k := uint64(bitsLen(yv.C) - 1)
+					if op == token.QUO {
+						return c.Bin(OLShr, xv, c.BV(k, int(xv.W)))
+					}
+					return c.Bin(OBAnd, xv, c.BV(yv.C-1, int(xv.W)))
+				}
+			}
+			if q, r, ok := m.divMod(xv, yv, signed); ok {
+				if op == token.QUO {
+					return q
+				}
+				return r
+			}
 			if signed {
 				if op == token.QUO {
 					return c.Bin(OSDiv, xv, yv)
@@ -337,6 +360,10 @@ func (m *Machine) conv(dst, src types.Type, x Value) Value {
 		return x
 	case nil, *ssa.Function, *Closure, *Map, *Chan, Struct, Array, Iface:
 		return x
+	case LSlice:
+		if _, ok := ud.(*types.Slice); ok {
+			return x
+		}
 	}
 	m.unsupported("conv %v -> %v (%T)", src, dst, x)
 	return nil
@@ -376,6 +403,8 @@ func (m *Machine) indexAddr(fr *frame, in *ssa.IndexAddr) Value {
 	x := fr.get(m, in.X)
 	i := m.idx64(fr.get(m, in.Index), in.Index.Type())
 	switch xv := x.(type) {
+	case LSlice:
+		return m.lsliceIndexAddr(xv, i)
 	case Slice:
 		return m.symIndexAddr(xv.V, i, "slice")
 	case *Value:
@@ -526,6 +555,8 @@ func (m *Machine) sliceOp(fr *frame, in *ssa.Slice) Value {
 	isStr := false
 	var str Str
 	switch xv := x.(type) {
+	case LSlice:
+		return m.lsliceOp(xv, lo, hi, max)
 	case Slice:
 		ln, cp = len(xv.V), cap(xv.V)
 		backing = xv.V
@@ -586,6 +617,12 @@ func (m *Machine) makeSlice(fr *frame, in *ssa.MakeSlice) Value {
 	m.require(c.Cmp(OSLe, c.BV(0, 64), ln), "panic:makeslice", "makeslice: len out of range")
 	m.require(c.Cmp(OSLe, ln, cp), "panic:makeslice", "makeslice: cap out of range")
 	m.allocObligation(cp, sizes.Sizeof(et))
+	if m.opaqueAlloc && isByteType(et) {
+		if l2 := m.rewrite(ln); !l2.IsConst() {
+			m.pc = append(m.pc, c.Cmp(OULe, cp, c.BV(lsliceMax, 64)))
+			return LSlice{Len: ln, Cap: cp}
+		}
+	}
 	m.cutLen(cp)
 	l := int(m.concretize(ln, "make len"))
 	k := int(m.concretize(cp, "make cap"))
@@ -780,6 +817,8 @@ func (m *Machine) builtin(fr *frame, b *ssa.Builtin, args []Value, call *ssa.Cal
 	switch b.Name() {
 	case "len":
 		switch x := args[0].(type) {
+		case LSlice:
+			return x.Len
 		case Slice:
 			return c.BV(uint64(len(x.V)), 64)
 		case Str:
@@ -804,6 +843,8 @@ func (m *Machine) builtin(fr *frame, b *ssa.Builtin, args []Value, call *ssa.Cal
 		}
 	case "cap":
 		switch x := args[0].(type) {
+		case LSlice:
+			return x.Cap
 		case Slice:
 			return c.BV(uint64(cap(x.V)), 64)
 		case Array:
@@ -817,6 +858,12 @@ func (m *Machine) builtin(fr *frame, b *ssa.Builtin, args []Value, call *ssa.Cal
 			return c.BV(uint64(len((*x).(Array))), 64)
 		}
 	case "append":
+		if _, ok := args[0].(LSlice); ok {
+			return m.lsliceAppend(args[0], args[1])
+		}
+		if _, ok := args[1].(LSlice); ok {
+			return m.lsliceAppend(args[0], args[1])
+		}
 		dst := args[0].(Slice)
 		var src []Value
 		switch s := args[1].(type) {
@@ -859,6 +906,12 @@ func (m *Machine) builtin(fr *frame, b *ssa.Builtin, args []Value, call *ssa.Cal
 		}
 		return Slice{V: out}
 	case "copy":
+		if _, ok := args[0].(LSlice); ok {
+			return m.lsliceCopy(args[0], args[1])
+		}
+		if _, ok := args[1].(LSlice); ok {
+			return m.lsliceCopy(args[0], args[1])
+		}
 		dst := args[0].(Slice)
 		var src []Value
 		switch s := args[1].(type) {
@@ -986,4 +1039,98 @@ func firstOrNil(a []Value) Value {
 		return nil
 	}
 	return a[0]
+}
+
+// divMod handles x / y and x % y for a *symbolic* divisor by definitional extension:
+// fresh q, r with  x = y*q + r  and  r < y  (computed without overflow in twice the
+// width), instead of a bit-blasted divider. Applies to unsigned operands, and to
+// signed ones that are known non-negative; widths up to 32 bits (or 64-bit operands
+// whose known range fits 31 bits). Equisatisfiable with the division for y != 0,
+// which the caller has already required.
+func (m *Machine) divMod(x, y *Term, signed bool) (q, r *Term, ok bool) {
+	c := m.ctx
+	x, y = m.rewrite(x), m.rewrite(y)
+	if y.IsConst() || x.S != SBV {
+		return nil, nil, false
+	}
+	w := int(x.W)
+	m.refreshFacts()
+	rx, okx := m.rangeOf(x, 0)
+	ry, oky := m.rangeOf(y, 0)
+	if signed {
+		top := uint64(1) << uint(w-1)
+		if !okx || !oky || rx.hi >= top || ry.hi >= top {
+			return nil, nil, false
+		}
+	}
+	if w > 32 {
+		if !okx || !oky || rx.hi >= 1<<31 || ry.hi >= 1<<31 {
+			return nil, nil, false
+		}
+	}
+	key := [2]*Term{x, y}
+	if m.divMemo == nil {
+		m.divMemo = map[[2]*Term][2]*Term{}
+	}
+	if v, ok := m.divMemo[key]; ok {
+		return v[0], v[1], true
+	}
+	q = c.Fresh("quo", SBV, w)
+	r = c.Fresh("rem", SBV, w)
+	x64, y64, q64, r64 := c.ZExt(x, 64), c.ZExt(y, 64), c.ZExt(q, 64), c.ZExt(r, 64)
+	lim := c.BV(uint64(1)<<32, 64)
+	if w < 32 {
+		lim = c.BV(uint64(1)<<uint(w), 64)
+	}
+	m.pc = append(m.pc,
+		c.Cmp(OULt, q64, lim), c.Cmp(OULt, r64, lim),
+		c.Eq(x64, c.Bin(OAdd, c.Bin(OMul, y64, q64), r64)),
+		c.Cmp(OULt, r64, y64),
+		c.Cmp(OULe, q64, x64))
+	m.divMemo[key] = [2]*Term{q, r}
+	return q, r, true
+}
+
+// learnEq records t == v (just added to the path condition) as a rewrite rule, peeling
+// invertible wrappers so that the innermost variable gets a definition, and re-simplifies
+// the path condition (e.g. y*q becomes linear once the quotient q is known).
+func (m *Machine) learnEq(t *Term, v uint64) {
+	c := m.ctx
+	changed := false
+	for d := 0; d < 8 && !t.IsConst(); d++ {
+		if t.Op == OVar || t.Op == OUDiv || t.Op == OSDiv || t.Op == OURem || t.Op == OMul {
+			m.defEq[t] = c.BV(v, int(t.W))
+			changed = true
+		}
+		switch {
+		case t.Op == OZExt:
+			t = t.Args[0]
+			v &= mask(t.W)
+		case t.Op == OAdd && t.Args[1].IsConst():
+			v = (v - t.Args[1].C) & mask(t.W)
+			t = t.Args[0]
+		case t.Op == OAdd && t.Args[0].IsConst():
+			v = (v - t.Args[0].C) & mask(t.W)
+			t = t.Args[1]
+		default:
+			d = 8
+		}
+	}
+	if !changed {
+		return
+	}
+	m.rwMemo = nil
+	for i, p := range m.pc {
+		m.pc[i] = m.rewrite(p)
+	}
+	m.facts = nil
+}
+
+func bitsLen(x uint64) int {
+	n := 0
+	for x != 0 {
+		n++
+		x >>= 1
+	}
+	return n
 }
